@@ -7,7 +7,7 @@
 use super::CodegenContext;
 use crate::errors::Diagnostics;
 use itertools::Itertools;
-use std::cell::RefCell;
+use std::cell::{Cell, RefCell};
 use std::collections::hash_map::DefaultHasher;
 use std::collections::HashSet;
 use std::hash::{Hash, Hasher};
@@ -31,6 +31,60 @@ pub type PassObserver = Box<dyn FnMut(&PassInfo) -> bool>;
 thread_local! {
     static OBSERVER: RefCell<Option<PassObserver>> = RefCell::new(None);
     static ENV_HISTORY: RefCell<Vec<u64>> = RefCell::new(vec![]);
+    /// Statements emitted in the current pass / the largest number seen in one pass / the cap (0 = none)
+    static TICKS: Cell<u64> = Cell::new(0);
+    static MAX_TICKS: Cell<u64> = Cell::new(0);
+    static TICK_CAP: Cell<u64> = Cell::new(0);
+}
+
+/// Work counter: a logical clock that advances once per emitted statement, so that "this input keeps the assembler
+/// busy forever" can be decided by counting steps instead of by a wall-clock timeout.
+/// With a cap installed, a pass that emits more statements than the cap panics with a recognisable message
+/// (the caller is expected to catch the unwind); 0 removes the cap.
+pub fn set_work_cap(cap: u64) {
+    TICK_CAP.with(|c| c.set(cap));
+    TICKS.with(|t| t.set(0));
+    MAX_TICKS.with(|t| t.set(0));
+}
+
+/// The largest number of statements emitted in one pass since the cap was (re)installed
+pub fn max_work_per_pass() -> u64 {
+    MAX_TICKS.with(|m| m.get()).max(TICKS.with(|t| t.get()))
+}
+
+pub(super) fn new_pass() {
+    let t = TICKS.with(|t| t.replace(0));
+    MAX_TICKS.with(|m| m.set(m.get().max(t)));
+}
+
+pub(super) fn tick() {
+    let t = TICKS.with(|t| {
+        t.set(t.get() + 1);
+        t.get()
+    });
+    let mut cap = TICK_CAP.with(|c| c.get());
+    let mut from_env = false;
+    if cap == 0 && t % 4096 == 0 {
+        // No cap installed: a process-wide one can be configured through the environment
+        if let Ok(c) = std::env::var("MOS_VERIF_WORK") {
+            cap = c.parse().unwrap_or(0);
+            from_env = true;
+        }
+    }
+    if cap != 0 && t > cap {
+        if from_env {
+            eprintln!(
+                "MOS-VERIF work cap exceeded: more than {} statements emitted in one pass",
+                cap
+            );
+            std::process::exit(96);
+        }
+        TICKS.with(|t| t.set(0));
+        panic!(
+            "MOS-VERIF work cap exceeded: more than {} statements emitted in one pass",
+            cap
+        );
+    }
 }
 
 /// Installs (or removes) the pass observer of the current thread. The observer returns `true` to stop the pass loop.
